@@ -7,6 +7,14 @@ pub struct CorpusStats { pub mt: &'static str, pub regime: String, pub states: u
 /// All messages of type `mt` within the tier's bound: the full product of the layout automaton if
 /// it has at most `cap` paths, otherwise every path within `d` deviations of the minimal and of
 /// the maximal base message.
+/// A trace whose text has a second reading. The standards resolve it ("an 86 directly after a 61
+/// belongs to that statement line"), so the reading that attaches such an 86 to the message level
+/// is not a member of the language and is dropped from the corpus.
+pub fn ambiguous(m: &Msg) -> bool {
+    use crate::spec::m2::Cont;
+    m.occs.windows(2).any(|w| w[0].tag == "61" && w[1].tag == "86" && matches!(w[1].cont, Cont::Root) && !matches!(w[0].cont, Cont::Root))
+}
+
 pub fn corpus(mt: &str, d: u32, cap: u64) -> (Vec<Msg>, CorpusStats) {
     let l = m2::layout(mt);
     let mut seen: HashSet<String> = HashSet::new();
@@ -18,7 +26,7 @@ pub fn corpus(mt: &str, d: u32, cap: u64) -> (Vec<Msg>, CorpusStats) {
     ex.run(&mut |m| tmp.push(m.clone()));
     if !ex.capped {
         let (st, tr) = (ex.states, ex.transitions);
-        for m in tmp { if seen.insert(m.text_lf()) { out.push(m); } }
+        for m in tmp { if !ambiguous(&m) && seen.insert(m.text_lf()) { out.push(m); } }
         // deviations are not meaningful in the full product; recompute them relative to min base as 0
         let n = out.len();
         return (out, CorpusStats { mt: l.mt, regime: "full-product".into(), states: st, transitions: tr, messages: n });
@@ -27,7 +35,7 @@ pub fn corpus(mt: &str, d: u32, cap: u64) -> (Vec<Msg>, CorpusStats) {
     let (mut st, mut tr) = (0, 0);
     for b in [Base::Min, Base::Max] {
         let mut ex = Explorer::new(l, b, d);
-        ex.run(&mut |m| { if seen.insert(m.text_lf()) { out.push(m.clone()); } });
+        ex.run(&mut |m| { if !ambiguous(m) && seen.insert(m.text_lf()) { out.push(m.clone()); } });
         st += ex.states; tr += ex.transitions;
     }
     // fewest deviations first so that single-deviation culprits are known before pairs
